@@ -539,6 +539,26 @@ PROPS = {
         "trusted": ["the harness' executor and transport wrapper (fault = the transport object is dropped and every later operation fails)",
                     "completion of pending operations is drop semantics of futures-channel; observed, not proved"],
     },
+    "C17": {
+        "props_module": "Aldrin.Props.C17",
+        "namespace": "Aldrin.Schema.Span",
+        "level": "partial",
+        "run": generic_run("front", {"sast", "slc"}, {"C17"}, {"quick": (1500, 6), "thorough": (25000, 14)},
+                           canon=None, extra_args=["/repo"],
+                           rule="sources: token soups over the grammar's alphabet (keywords, punctuation, literals, comments, odd white space, "
+                                "NUL, BOM, astral characters), mutations of every .aldrin file of the repository (character edits, spliced "
+                                "lines, duplicated tails; the 83 files also unmodified), generated valid schemas with adversarial markdown in "
+                                "every doc position (all link forms, carriage returns, tabs, multi-byte characters next to brackets), some "
+                                "damaged; imports provided as valid schemas, as the source itself (cycles), as garbage, or missing. The whole "
+                                "pipeline (parse, render every error and warning with two renderer configurations, format, generate Rust "
+                                "with introspection when there are no errors) runs twice under catch_unwind; a panic, a different set of "
+                                "diagnostics (title lines as multisets), different formatted text or generated code is a violation. Lines for "
+                                "the model: sast (grammar model: accept / reject and AST of the main schema) and slc (every evaluation of the "
+                                "doc-link position arithmetic recorded by the parser's verif-hooks feature)"),
+        "trusted": ["that comrak reports columns >= 1 and start <= end (every column 0 seen is reported as a violation)",
+                    "which schema a cross-schema diagnostic names first follows hash-map order and differs between runs; compared are "
+                    "title lines (kind, names, ids)"],
+    },
     "C19": {
         "props_module": "Aldrin.Props.C19",
         "namespace": "Aldrin.Disc",
